@@ -92,6 +92,10 @@ def system(R, rng, tier):
             fn = "%s_%d.py" % (stem, k)
             pw = gen_text(rng, "oneline")
             src = ("import subprocess\npassword = %s\nsubprocess.Popen(cmd,\n    stdin=None,\n    shell=True)\nassert password\n" % py_literal(pw))
+            if rng.random() < 0.5:
+                # characters str.splitlines() treats as line ends but files do not: a page-break line and separators inside
+                # a literal, right next to flagged lines (they end up in the excerpts of every format)
+                src = src.replace("assert password\n", "\x0c\nassert password\nzz_ls = 'a\u2028b\x0cc\x1cd\x85e'\nassert zz_ls\n", 1)
             if rng.random() < 0.6:
                 # several rules share the test name "blacklist" while a plugin's ID lies between theirs
                 src += "import pickle, hashlib\npickle.loads(zz)\nhashlib.md5(zz)\nimport telnetlib\n"
